@@ -27,6 +27,7 @@ import (
 	corev1 "k8s.io/api/core/v1"
 	netv1beta1 "k8s.io/api/networking/v1beta1"
 	metav1 "k8s.io/apimachinery/pkg/apis/meta/v1"
+	"k8s.io/apimachinery/pkg/labels"
 
 	"verifharness/kit"
 )
@@ -51,6 +52,8 @@ func e17LabelMaps() []map[string]string {
 			out = append(out, mm)
 		}
 	}
+	// empty-string VALUES are legal and differ from an absent key
+	out = append(out, map[string]string{"l": ""}, map[string]string{"l": "", "m": "1"}, map[string]string{"m": "", "l": "x"}, map[string]string{"k": "v", "n": "w"})
 	return out
 }
 
@@ -74,7 +77,7 @@ func e17Universe() []metav1.Object {
 	for _, ns := range e17NS[:2] {
 		for ni, nm := range e17Names {
 			for si, s := range sels {
-				out = append(out, &corev1.Service{ObjectMeta: metav1.ObjectMeta{Namespace: ns, Name: nm, Labels: e17LabelMaps()[(ni*5+si*3)%16]},
+				out = append(out, &corev1.Service{ObjectMeta: metav1.ObjectMeta{Namespace: ns, Name: nm, Labels: e17LabelMaps()[(ni*5+si*3)%len(e17LabelMaps())]},
 					Spec: corev1.ServiceSpec{Selector: s}})
 			}
 		}
@@ -116,6 +119,8 @@ func e17Selectors() []*metav1.LabelSelector {
 		lsel(nil, req("l", metav1.LabelSelectorOpNotIn, "x"), req("l", metav1.LabelSelectorOpExists)),
 		lsel(nil, req("l", metav1.LabelSelectorOpIn, "x", "y"), req("l", metav1.LabelSelectorOpNotIn, "y")),
 		lsel(map[string]string{"l": "x"}, req("l", metav1.LabelSelectorOpIn, "x", "z"), req("m", metav1.LabelSelectorOpDoesNotExist)),
+		lsel(map[string]string{"l": ""}),
+		lsel(nil, req("l", metav1.LabelSelectorOpIn, "", "x")),
 	}
 }
 
@@ -197,7 +202,13 @@ func wlMapKind(kind string) bool { return kind == "service" || kind == "rc" }
 
 // buildPodsFilter builds the library's pods filter for the workloads, given in
 // the order provided.
-func buildPodsFilter(kind string, ws []wl) filter.ComparableFilter {
+// buildPodsFilter builds the filter from fresh API objects.
+func buildPodsFilter(kind string, ws []wl) filter.ComparableFilter { return podsFilterBuilder(kind, ws)() }
+
+// podsFilterBuilder creates the API objects ONCE and returns a function that
+// calls PodsFilter on that same argument slice each time it is invoked (a
+// caller that keeps its list and builds the filter again).
+func podsFilterBuilder(kind string, ws []wl) func() filter.ComparableFilter {
 	om := func(w wl) metav1.ObjectMeta { return metav1.ObjectMeta{Namespace: w.ns, Name: w.name} }
 	pt := func(w wl) corev1.PodTemplateSpec {
 		return corev1.PodTemplateSpec{ObjectMeta: metav1.ObjectMeta{Labels: w.tmpl}}
@@ -208,7 +219,7 @@ func buildPodsFilter(kind string, ws []wl) filter.ComparableFilter {
 		for _, w := range ws {
 			s = append(s, &corev1.Service{ObjectMeta: om(w), Spec: corev1.ServiceSpec{Selector: w.msel}})
 		}
-		return service.PodsFilter(s...)
+		return func() filter.ComparableFilter { return service.PodsFilter(s...) }
 	case "rc":
 		var s []*corev1.ReplicationController
 		for _, w := range ws {
@@ -219,37 +230,37 @@ func buildPodsFilter(kind string, ws []wl) filter.ComparableFilter {
 			}
 			s = append(s, rc)
 		}
-		return replicationcontroller.PodsFilter(s...)
+		return func() filter.ComparableFilter { return replicationcontroller.PodsFilter(s...) }
 	case "rs":
 		var s []*appsv1.ReplicaSet
 		for _, w := range ws {
 			s = append(s, &appsv1.ReplicaSet{ObjectMeta: om(w), Spec: appsv1.ReplicaSetSpec{Selector: w.sel, Template: pt(w)}})
 		}
-		return replicaset.PodsFilter(s...)
+		return func() filter.ComparableFilter { return replicaset.PodsFilter(s...) }
 	case "deployment":
 		var s []*appsv1.Deployment
 		for _, w := range ws {
 			s = append(s, &appsv1.Deployment{ObjectMeta: om(w), Spec: appsv1.DeploymentSpec{Selector: w.sel, Template: pt(w)}})
 		}
-		return deployment.PodsFilter(s...)
+		return func() filter.ComparableFilter { return deployment.PodsFilter(s...) }
 	case "daemonset":
 		var s []*appsv1.DaemonSet
 		for _, w := range ws {
 			s = append(s, &appsv1.DaemonSet{ObjectMeta: om(w), Spec: appsv1.DaemonSetSpec{Selector: w.sel, Template: pt(w)}})
 		}
-		return daemonset.PodsFilter(s...)
+		return func() filter.ComparableFilter { return daemonset.PodsFilter(s...) }
 	case "statefulset":
 		var s []*appsv1.StatefulSet
 		for _, w := range ws {
 			s = append(s, &appsv1.StatefulSet{ObjectMeta: om(w), Spec: appsv1.StatefulSetSpec{Selector: w.sel, Template: pt(w)}})
 		}
-		return statefulset.PodsFilter(s...)
+		return func() filter.ComparableFilter { return statefulset.PodsFilter(s...) }
 	case "job":
 		var s []*batchv1.Job
 		for _, w := range ws {
 			s = append(s, &batchv1.Job{ObjectMeta: om(w), Spec: batchv1.JobSpec{Selector: w.sel, Template: pt(w)}})
 		}
-		return job.PodsFilter(s...)
+		return func() filter.ComparableFilter { return job.PodsFilter(s...) }
 	}
 	panic("kind " + kind)
 }
@@ -430,7 +441,8 @@ func e17MiscOwnCase() Case {
 		uni := e17Universe()
 		n := int64(0)
 		// ingress -> services
-		backends := [][]string{nil, {"a"}, {"a", "b"}, {""}, {"c", ""}, {"a", "b", "c"}}
+		// "" = a path whose backend names no service (a resource backend): first, middle, last
+		backends := [][]string{nil, {"a"}, {"a", "b"}, {""}, {"c", ""}, {"a", "b", "c"}, {"", "a"}, {"a", "", "b"}, {"", "", "c"}}
 		var ings []*netv1beta1.Ingress
 		for _, ns := range e17NS[:2] {
 			for bi, be := range backends {
@@ -560,12 +572,32 @@ func e17Atoms() []*kit.Term {
 	for _, s := range [][]string{{}, {"n0/a"}, {"n0/a", "n1/b"}, {"n1/b", "n0/a"}, {"n0/"}, {"/a"}, {"n0/", "/b"}, {"n0/a", "n1/"}, {"n1/", "n0/a"}, {"n2/c", "n2/c"}, {"n0/", "n1/", "n2/"}} {
 		at = append(at, kit.TNSName(ids(s...)...))
 	}
-	for _, m := range []map[string]string{nil, {}, {"l": "x"}, {"l": "y"}, {"m": "1"}, {"l": "x", "m": "1"}, {"l": "z", "m": "3"}} {
+	for _, m := range []map[string]string{nil, {}, {"l": "x"}, {"l": "y"}, {"m": "1"}, {"l": "x", "m": "1"}, {"l": "z", "m": "3"}, {"l": ""}, {"l": "", "m": "1"}, {"m": ""}} {
 		at = append(at, kit.TLabels(m))
 	}
-	for _, m := range []map[string]string{{}, {"l": "x"}, {"l": "x", "m": "1"}} {
+	for _, m := range []map[string]string{{}, {"l": "x"}, {"l": "x", "m": "1"}, {"l": ""}} {
 		at = append(at, kit.TSelector(m))
 	}
+	// selectors that are not built from a label set: the zero selector of every flavour,
+	// the nothing selector, parsed ones
+	psel := func(name string, mk func() labels.Selector, eval func(map[string]string) bool) *kit.Term {
+		return kit.TCustom("selector("+name+")", func() filter.Filter { return filter.Selector(mk()) }, func(o metav1.Object) bool { return eval(o.GetLabels()) })
+	}
+	mustParse := func(x string) labels.Selector {
+		sel, err := labels.Parse(x)
+		if err != nil {
+			panic(err)
+		}
+		return sel
+	}
+	at = append(at,
+		psel("NewSelector()", func() labels.Selector { return labels.NewSelector() }, func(map[string]string) bool { return true }),
+		psel("Everything()", func() labels.Selector { return labels.Everything() }, func(map[string]string) bool { return true }),
+		psel("Nothing()", func() labels.Selector { return labels.Nothing() }, func(map[string]string) bool { return false }),
+		psel("Parse('')", func() labels.Selector { return mustParse("") }, func(map[string]string) bool { return true }),
+		psel("Parse('l=x')", func() labels.Selector { return mustParse("l=x") }, func(l map[string]string) bool { return l["l"] == "x" }),
+		psel("Parse('l=')", func() labels.Selector { return mustParse("l=") }, func(l map[string]string) bool { v, ok := l["l"]; return ok && v == "" }),
+		psel("Parse('!l')", func() labels.Selector { return mustParse("!l") }, func(l map[string]string) bool { _, ok := l["l"]; return !ok }))
 	for _, s := range e17Selectors() {
 		at = append(at, kit.TLSel(s))
 	}
@@ -618,6 +650,23 @@ func e17Terms() []*kit.Term {
 	for _, a := range core {
 		for _, b := range core {
 			terms = append(terms, kit.TAnd(a, b), kit.TOr(a, b))
+		}
+	}
+	// every ordered pair (and some triples) of selector-like atoms under one And / Or: a
+	// constructor that merges sibling selectors must keep the meaning, whatever the order
+	var sels []*kit.Term
+	for _, a := range atoms {
+		if a.Op == "labels" || a.Op == "selector" || a.Op == "lsel" || strings.HasPrefix(a.Name, "selector(") {
+			sels = append(sels, a)
+		}
+	}
+	for i, a := range sels {
+		for j, b := range sels {
+			terms = append(terms, kit.TAnd(a, b), kit.TOr(a, b))
+			if (i+j)%5 == 0 {
+				c := sels[(i*3+j*7+1)%len(sels)]
+				terms = append(terms, kit.TAnd(a, b, c), kit.TAnd(c, a, b), kit.TOr(a, c, b))
+			}
 		}
 	}
 	// nested composites of the same and of the other kind, in first, middle and
@@ -817,6 +866,36 @@ func e17EqualityCase(chunk, chunks int, seed uint64, depth3Pairs int) Case {
 				r.Add("rebuilt-checks", 1)
 				if !filter.FiltersEqual(built[i].f, f2) {
 					r.V("C17", "rebuilt-not-equal", "%s built twice from the same arguments does not compare equal", t)
+				}
+			}
+		}
+		// a caller that keeps its list of workloads and builds the filter from that same
+		// slice again (and again): every build compares equal to the first and to one built
+		// from fresh objects, and accepts the same objects
+		if chunk == 0 {
+			for _, kind := range wlKinds {
+				ws := e17Workloads(kind)
+				for _, pk := range [][]int{{0, 4, 9}, {4, 0, 9}, {9, 4, 0}, {0, 2}, {2, 0}, {5, 1, 3, 0, 7}, {1}, {12, 0, 2, 13}} {
+					var set []wl
+					for _, i := range pk {
+						set = append(set, ws[i%len(ws)])
+					}
+					build := podsFilterBuilder(kind, set)
+					fresh := buildPodsFilter(kind, set)
+					fb := acceptBits(fresh, uni)
+					for rep := 0; rep < 3; rep++ {
+						f := build()
+						r.Add("rebuilt-checks", 1)
+						if !filter.FiltersEqual(f, fresh) || !filter.FiltersEqual(fresh, f) {
+							r.V("C17", "rebuilt-not-equal", "%s.PodsFilter built for the %d. time from the caller's own slice of workloads %v does not compare equal to the filter built from the same workloads freshly", kind, rep+1, pk)
+							break
+						}
+						if ok, i := same(acceptBits(f, uni), fb); !ok {
+							o := uni[i]
+							r.V("C17", "unsound-equality", "%s.PodsFilter built for the %d. time from the caller's own slice %v compares equal to the fresh one but disagrees on %T %s/%s", kind, rep+1, pk, o, o.GetNamespace(), o.GetName())
+							break
+						}
+					}
 				}
 			}
 		}
